@@ -245,7 +245,7 @@ func c14ImageView(r *fw.Rec, ws *writerSpec, bm *gozxing.BitMatrix, info map[str
 }
 
 func c14(c *fw.Ctx) {
-	c.Rule("every writer (QR, Data Matrix, nine 1-D) x 3 seeded small symbols: requested width x height exhaustive over 0..2N+3 (N = modules + quiet zone; 1-D heights {0,1,2,3,7}) with the default margin, margins 0..20 at sampled sizes (defaults: QR 4 per side, 1-D 10 shared, UPC/EAN 9 shared), sampled sizes up to 8N incl. non-square, module sizes 33..140 pixels (blocks spanning several 32-bit words); half of the hint-less calls go through EncodeWithoutHint; renderings up to 2048 pixels (and a tenth of those up to 1 Mpixel) are also consumed as image.Image: Bounds, At, ColorModel, image/draw Over a white page / Src into RGBA and Gray, PNG encode+decode, all compared with the bits; every pixel of every output compared with the closed form of the statement; the sampled cases use ONE writer instance for a history of 6 calls with and without margin hints (no state may leak between calls) and re-check an earlier result after later calls; module matrix from the encoder (QR) or the 0x0/margin-0 rendering (Data Matrix, 1-D); distinct = distinct (writer, content, width, height, margin)")
+	c.Rule("every writer (QR, Data Matrix, nine 1-D) x 3 seeded small symbols (every second sampled case draws a content of its own, which reaches rectangular and larger Data Matrix sizes): requested width x height exhaustive over 0..2N+3 (N = modules + quiet zone; 1-D heights {0,1,2,3,7}) with the default margin, margins 0..20 at sampled sizes (defaults: QR 4 per side, 1-D 10 shared, UPC/EAN 9 shared), sampled sizes up to 8N incl. non-square, module sizes 33..140 pixels (blocks spanning several 32-bit words); half of the hint-less calls go through EncodeWithoutHint; renderings up to 2048 pixels (and a tenth of those up to 1 Mpixel) are also consumed as image.Image: Bounds, At, ColorModel, image/draw Over a white page / Src into RGBA and Gray, PNG encode+decode, all compared with the bits; every pixel of every output compared with the closed form of the statement; the sampled cases use ONE writer instance for a history of 6 calls with and without margin hints (no state may leak between calls) and re-check an earlier result after later calls; module matrix from the encoder (QR) or the 0x0/margin-0 rendering (Data Matrix, 1-D); distinct = distinct (writer, content, width, height, margin)")
 	c.Assume("the bare module matrix itself is validated against the standards by C07/C08/C03; here it is taken from the library's own 0x0 rendering")
 	for wi := range allWriters {
 		ws := &allWriters[wi]
@@ -347,6 +347,20 @@ func c14(c *fw.Ctx) {
 						return
 					}
 					rng := r.Rng
+					if i%2 == 1 {
+						// every second case: a content of its own, of any length the generator offers
+						// (for Data Matrix this reaches the rectangular sizes and larger squares)
+						content = ws.Gen(rng, false)
+						m2, err := c14Modules(ws, content)
+						if err != nil {
+							r.Violation("model-mismatch", "render:"+ws.Name+":bare-symbol-error", fmt.Sprintf("bare rendering of %q failed: %v", content, err), map[string]interface{}{"writer": ws.Name, "content": content})
+							return
+						}
+						mod = m2
+						if len(mod) != len(mod[0]) && !ws.OneD {
+							r.Tally("renderings_of_rectangular_2d_symbols")
+						}
+					}
 					shared := ws.New() // one instance for the whole history of this case
 					var prev *gozxing.BitMatrix
 					var prevHash string
@@ -399,6 +413,7 @@ func c14(c *fw.Ctx) {
 	c.Floor("renderings_scaled", 1000)
 	c.Floor("renderings_with_margin_hint", 1000)
 	c.Floor("renders_via_EncodeWithoutHint", 500)
+	c.Floor("renderings_of_rectangular_2d_symbols", 50)
 	c.Floor("renderings_with_modules_of_33_pixels_or_more", 150)
 	c.Floor("renderings_consumed_as_image", 5000)
 	c.Floor("renderings_png_roundtrip", 1000)
